@@ -44,6 +44,15 @@ def dim(n):
 
 
 def run(chk, facts, tier):
+    chk.rule('pair-length-from-first-readable', 'Read By Type (collect_attributes): the common length of the handle-value pairs (size_, first_) is taken from the first attribute whose read SUCCEEDED: '
+             'an unreadable first match neither fixes the length nor ends the search - "Attribute Not Found" only if no readable match exists', floor=1)
+    for fn in variants(facts, 'bluetoe::details::collect_attributes::operator()', chk):
+        sts = [(target_name(tgt), st) for tgt, op, val, st in stores(fn.body) if target_name(tgt) in ('size_', 'first_')]
+        def succ(st):
+            return any(op == '==' and not isinstance(l, int) and not isinstance(r, int) and 'success' in (strip_casts(l).n, strip_casts(r).n) for l, op, r in guard_atoms(fn, st))
+        ok = len(sts) >= 2 and all(succ(st) for n, st in sts)
+        chk.instance('pair-length-from-first-readable', fn, 'size_ / first_ written only behind rc == success (%d stores)' % len(sts), ok,
+                     '' if ok else 'the pair length is fixed by an attribute that could not be read (write-only, encryption missing): every readable match behind it is skipped and the request ends in Attribute Not Found', key='bookkeeping')
     chk.rule('last-index-sentinel-checked', 'a local holding last_handle_index(<ending handle>) (invalid_attribute_index = "every attribute lies behind the range") is used as the upper bound of a range only '
              'where a dominating test excluded the sentinel', floor=1)
     for fn in facts.functions:
